@@ -67,6 +67,10 @@ type FuncContract struct {
 	Line       int
 	Axioms     []Clause // function-local extra assumptions (listed in evidence as assumed)
 	Known      map[string]string
+	Hints      []Clause // proved at every return before the postconditions, then available to them (intermediate assertions)
+	InstName   string // `instantiate NAME in lo..hi`: the function is verified once per value, NAME is that integer constant
+	InstLo     int
+	InstHi     int
 }
 
 type Param struct{ Name, Type string }
@@ -123,7 +127,7 @@ type PkgContracts struct {
 
 var clauseKW = map[string]bool{"mode": true, "requires": true, "ensures": true, "assigns": true, "may-panic": true,
 	"loop": true, "ghost-update": true, "assert": true, "assert-all-calls": true, "instantiate": true, "inline": true, "pure-call": true,
-	"params": true, "assume": true, "wraps": true}
+	"params": true, "assume": true, "wraps": true, "hint": true}
 var declKW = map[string]bool{"func": true, "iface": true, "trusted": true, "pure": true, "axiom": true, "lemma": true,
 	"ghost": true, "immutable": true, "property": true, "constglobal": true}
 
@@ -416,7 +420,7 @@ func parseClause(fc *FuncContract, kw, rest string, line int) error {
 		}
 	case "wraps":
 		fc.NoOverflow = true
-	case "requires", "ensures", "may-panic", "assume":
+	case "requires", "ensures", "may-panic", "assume", "hint":
 		if kw == "may-panic" {
 			rest = strings.TrimSpace(strings.TrimPrefix(strings.TrimSpace(rest), "when"))
 		}
@@ -433,6 +437,8 @@ func parseClause(fc *FuncContract, kw, rest string, line int) error {
 			fc.MayPanic = append(fc.MayPanic, c)
 		case "assume":
 			fc.Axioms = append(fc.Axioms, c)
+		case "hint":
+			fc.Hints = append(fc.Hints, c)
 		}
 	case "assigns":
 		fc.HasAssigns = true
@@ -571,7 +577,16 @@ func parseClause(fc *FuncContract, kw, rest string, line int) error {
 		}
 		fc.GhostUpds = append(fc.GhostUpds, gu)
 	case "instantiate":
-		// recorded, handled by the driver (not used yet)
+		m := regexp.MustCompile(`^(\w+)\s+in\s+(\d+)\s*\.\.\s*(\d+)$`).FindStringSubmatch(strings.TrimSpace(rest))
+		if m == nil {
+			return fmt.Errorf("instantiate: want `NAME in lo..hi`")
+		}
+		fc.InstName = m[1]
+		fc.InstLo, _ = strconv.Atoi(m[2])
+		fc.InstHi, _ = strconv.Atoi(m[3])
+		if fc.InstLo > fc.InstHi {
+			return fmt.Errorf("instantiate: empty range")
+		}
 	default:
 		return fmt.Errorf("unknown clause %q", kw)
 	}
